@@ -74,13 +74,29 @@ def structure(name):
     return dict(par=par, dnum=dnum, nb=nb, nv=nv, dofadr=dofadr, dof_body=dof_body, dof_par=dof_par, anc=anc, rownnz=rownnz, rowadr=rowadr, colind=colind, nC=len(colind))
 
 
+def root_ids(S):
+    out = [0] * S['nb']
+    for b in range(1, S['nb']): out[b] = b if S['par'][b] == 0 else out[S['par'][b]]
+    return out
+
+
+def weld_ids(S):
+    """a body without dofs is welded to its parent: weld id = first ancestor (or itself) that owns dofs, 0 for bodies fixed to the world"""
+    out = []
+    for b in range(S['nb']):
+        c = b
+        while c > 0 and S['dnum'][c] == 0: c = S['par'][c]
+        out.append(c)
+    return out
+
+
 def world(name, data_sym, extra_vals=None):
     S = structure(name); L = lay()
     w = W.World('real'); nb, nv = S['nb'], S['nv']
     M, _ = W.full_struct(w, L, 'mjModel_', 'MJMODEL_POINTERS', {'nq': nv, 'nv': nv, 'njnt': nv, 'nbody': nb, 'ntree': 1, 'nC': S['nC'], 'nM': S['nC'], 'nD': nv * nv}, 'm', default_size=0, symbolic=('dof_armature',),
                          values={'body_parentid': S['par'], 'body_dofadr': S['dofadr'], 'body_dofnum': S['dnum'], 'dof_bodyid': S['dof_body'], 'dof_parentid': S['dof_par'], 'dof_simplenum': [0] * nv,
-                                 'dof_jntid': list(range(nv)), 'jnt_actuatorid': [-1] * nv, 'jnt_type': [build.enum_values('mjJNT_')['mjJNT_HINGE'] if i % 2 == 0 else build.enum_values('mjJNT_')['mjJNT_SLIDE'] for i in range(nv)], 'M_rownnz': S['rownnz'], 'M_rowadr': S['rowadr'], 'M_colind': S['colind'], 'body_weldid': list(range(nb)),
-                                 'body_rootid': [0] + [1] * (nb - 1)})
+                                 'dof_jntid': list(range(nv)), 'jnt_actuatorid': [-1] * nv, 'jnt_type': [build.enum_values('mjJNT_')['mjJNT_HINGE'] if i % 2 == 0 else build.enum_values('mjJNT_')['mjJNT_SLIDE'] for i in range(nv)], 'M_rownnz': S['rownnz'], 'M_rowadr': S['rowadr'], 'M_colind': S['colind'], 'body_weldid': weld_ids(S),
+                                 'body_rootid': root_ids(S)})
     D, _ = W.full_struct(w, L, 'mjData_', 'MJDATA_POINTERS', {'nq': nv, 'nv': nv, 'nbody': nb, 'nC': S['nC'], 'nM': S['nC'], 'nD': nv * nv}, 'd', default_size=0, symbolic=tuple(data_sym), values=extra_vals or {})
     ar = w.obj('arena', 16384).zeros(); D.o.put(D.off('arena'), 'ptr', (ar, 0)); D.set('narena', 16384)
     M.set('opt.disableflags', 0); M.set('opt.enableflags', 0)
